@@ -67,7 +67,7 @@ static bool phase_should_end(struct sim *s)
 	if (s->cfg.c08_mode) {
 		/* scheduled cache-side events and the outage window are disturbances still to come */
 		for (int i = 0; i < s->cfg.ntevent; i++)
-			if (!s->cfg.tevent[i].done && s->cfg.tevent[i].kind != 2)
+			if (!s->cfg.tevent[i].done && s->cfg.tevent[i].kind != 2 && s->cfg.tevent[i].kind != 7)
 				return false;
 		if (s->cfg.outage_until > s->cfg.outage_from && VNOW - s->t_start < s->cfg.outage_until)
 			return false;
@@ -235,7 +235,7 @@ static size_t chunk(struct sim *s, int policy, size_t want, size_t avail)
 	case CH_ONE:
 		return 1;
 	case CH_RANDOM:
-		return 1 + rndn(&s->rng, (uint32_t)n);
+		return 1 + rndn(&s->chunk_rng, (uint32_t)n);
 	case CH_HEADER_SPLIT:
 		return n > 3 ? 3 : n;
 	default:
@@ -262,7 +262,9 @@ static int tfault_for_call(struct sim *s, enum tcall what)
 				return F_ERROR;
 		}
 	}
-	if (s->cfg.p_tfault && s->queries < s->cfg.misbehave_until_query && rndn(&s->rng, 1000) < (uint32_t)s->cfg.p_tfault) {
+	if (s->cfg.p_tfault && s->queries < s->cfg.misbehave_until_query && s->random_faults_fired < 8 &&
+	    rndn(&s->rng, 1000) < (uint32_t)s->cfg.p_tfault) {
+		s->random_faults_fired++;
 		static const int kinds[] = {F_ERROR, F_WOULDBLOCK, F_INTR, F_CLOSED};
 
 		return what == TC_OPEN ? F_ERROR : kinds[rndn(&s->rng, 4)];
@@ -291,7 +293,7 @@ void sim_apply_events(struct sim *s, bool allow_notify)
 
 		if (e->done || e->at > VNOW)
 			continue;
-		if (e->kind == 2 && !allow_notify)
+		if ((e->kind == 2 || e->kind == 7) && !allow_notify)
 			continue;
 		e->done = true;
 		if (e->kind == 1) {
@@ -311,6 +313,17 @@ void sim_apply_events(struct sim *s, bool allow_notify)
 			s->cache.no_data = false;
 			sim_disturb(s);
 			CNT("sim/event/cache_obtains_data");
+		} else if (e->kind == 7) {
+			if (s->connected && !s->peer_closed && s->in_pos == s->in_len && s->cfg.rawgen) {
+				static uint8_t rawbuf[70000];
+				size_t n = s->cfg.rawgen(s, rawbuf, sizeof(rawbuf), s->cfg.fuzz_seed ^ 0x1d1e, -1);
+
+				sim_queue_bytes(s, rawbuf, n);
+				s->first_pdu_pending = false;
+				s->tfault_on_conn = true; /* arbitrary bytes: every later expectation on this connection is weak */
+				sim_disturb(s);
+				CNT("sim/event/raw_bytes_while_idle");
+			}
 		} else if (e->kind == 2) {
 			if (s->connected && !s->peer_closed && !s->silent && s->in_pos == s->in_len) {
 				uint8_t b[16];
@@ -589,6 +602,7 @@ void sim_init(struct sim *s, struct universe *u, const struct simcfg *cfg, uint6
 	s->u = u;
 	s->cfg = *cfg;
 	s->rng.s = seed;
+	s->chunk_rng.s = seed ^ 0xc4a11c;
 	SIM_TRACE = getenv("SIM_TRACE") != NULL;
 	sem_init(&s->done, 0, 0);
 	sem_init(&s->resume, 0, 0);
